@@ -19,7 +19,7 @@ RULE = (
     "carry the same content key and version, and a memoize whose content key already existed opens no file for writing under c/ (audit hook); "
     "(3) every live memento still reads exactly the digest recorded when it was created. Generators: all sequences up to length 3/4 over a 13-op "
     "alphabet (exhaustive) + Hypothesis histories + a fault family: for 6 values x {cache, no cache} every mutating filesystem operation of one memoize is crashed / failed in every variant of C08, "
-    "then two fault-free memoizes of the same bytes by other calls must yield mementos whose content key is shared, readable, hashes to its name and reads back the value, and no listed content key may hold bytes that hash to something else. Non-trivial = a duplicate-bytes memoize, an override overwrite while an older memento of that key "
+    "then two fault-free memoizes of the same bytes by other calls must yield mementos whose content key is shared, readable, hashes to its name and reads back the value, and no listed content key may hold bytes that hash to something else; + a race family: two different calls publishing different values under one override key are interleaved by C09's deterministic scheduler (every one-preemption schedule; every 3rd yield point in quick) and afterwards each call must still be served the bytes of its own result. Non-trivial = a duplicate-bytes memoize, an override overwrite while an older memento of that key "
     "is live, or a forget between write and re-read; distinct by op-kind sequence."
 )
 ASSUMPTIONS = [
@@ -274,9 +274,51 @@ FAULT_CASES = [
 ]
 
 
+RACE_SCN = {"store": "cold", "shape": "override-shared", "backend": "fs", "threads": 2}
+
+
+def execute_race(case, scratch):
+    """
+    case = {"kind": "race", "preemptions": [[yield index, thread]]}: two different calls publish different values under
+    one override key, interleaved by the deterministic scheduler of C09; afterwards each call's memento must still read
+    the bytes of its own result (the call is served its own value).
+    """
+    from vlib import proc
+    from checks import c09
+    out = core.Outcome()
+    d = env.fresh_dir(scratch, "c07r-")
+    try:
+        res = proc.forkrun(c09._child, {"scenario": RACE_SCN, "base": d, "schedules": [case["preemptions"]]}, timeout=300)[0]
+    finally:
+        env.rm(d)
+    for r in res["results"]:
+        if "exc" in r:
+            out.violation("racing writers of one override key: a caller raised %s: %s" % (r["exc"], r["msg"]), symptom="exception", exc=r["exc"], where=r.get("where"))
+    for rr in res.get("recalls", []):
+        if "exc" in rr:
+            out.violation("after two racing writers of one override key (preemptions %r): reading the result of %s raised %s: %s" % (
+                case["preemptions"], rr["fn"], rr["exc"], rr["msg"]), symptom="memento-bytes-unreadable", race=True)
+        elif rr["ok"] != rr["want"]:
+            out.violation("after two racing writers of one override key (preemptions %r, taken at %s): the memento of %s now reads %r; it stored %r" % (
+                case["preemptions"], [t[3] for t in res["taken"]], rr["fn"], rr["ok"], rr["want"]), symptom="memento-bytes-changed", race=True)
+    out.nontrivial = bool(res["taken"])
+    out.labels = ["family:race"] + (["race:preemption-taken"] if res["taken"] else [])
+    out.nt_key = ["race", [list(t[:3]) for t in res["taken"]]]
+    out.render = {"race": RACE_SCN, "preemptions": case["preemptions"], "taken": res["taken"]}
+    return out
+
+
+def race_cases(scratch, stride):
+    from checks import c09
+    ref = c09.sequential_reference(RACE_SCN, scratch)
+    return [{"kind": "race", "preemptions": [[g, t]]} for g in range(0, ref["yields"], stride) for t in range(2)]
+
+
 def execute(case, scratch):
     if case.get("kind") == "fault":
         return execute_fault(case, scratch)
+    if case.get("kind") == "race":
+        return execute_race(case, scratch)
     d = env.fresh_dir(scratch, "c07-")
     try:
         sess = CasSession(d, case)
@@ -320,6 +362,9 @@ def run_shard(ctx):
     stats.extra["small_scope_complete"] = bool(complete)
     # fault family: a fixed list, spread over the shards (each case enumerates all its fault points)
     core.enum_search(FAULT_CASES, ex, stats, findings=ctx.findings, shard=ctx.shard, nshards=ctx.nshards, deadline_s=dl(0.8))
+    # race family: every one-preemption interleaving (every 3rd yield point in quick) of two writers of one override key
+    core.enum_search(race_cases(ctx.scratch, 1 if thorough else 3), ex, stats, findings=ctx.findings, shard=ctx.shard, nshards=ctx.nshards,
+                     deadline_s=dl(0.8))
     core.hyp_search(
         storegen.history_strategy(80 if thorough else 30, backends=("fs", "fsc"), overrides=True, pool_values=True),
         ex, stats, max_examples=1500 if thorough else 110, seed=core.hash64(ctx.seed, ID, ctx.shard),
